@@ -164,7 +164,20 @@ def oracle_c19(toks, line):
     return len(t0) == cross[0] and len(t1) == cross[1] and "?" not in t0 + t1
 
 
+def oracle_scenarios(toks, line):
+    """cbptr: the guest reads, through the pointer the callback returned, the value the callback stored; cbmany: every live
+    entry point still runs the function it was handed out for"""
+    if toks[0] == "cbptr":
+        return line == f"ok {int(toks[2])}"
+    if toks[0] == "cbmany":
+        n, u = int(toks[2]), int(toks[3])
+        return line == "ok " + " ".join("-" if i == u else str(i) for i in range(n + 2))
+    return None
+
+
 def oracle_c12(toks, line):
+    if toks[0] in ("cbptr", "cbmany"):
+        return oracle_scenarios(toks, line)
     """every executed callback node: the function registered for that entry point on the executing sandbox runs,
     once, with the executing sandbox and the guest's argument; its result reaches the guest unless something faulted"""
     p = parse_log(line)
